@@ -22,8 +22,12 @@ import time
 from harness import common
 
 PROP = 'C18'
-THEOREMS = ['C18_machine_refines', 'C18_terminates', 'C18_acyclic_partial', 'C18_shared_partial', 'C18_cyclic_partial',
-            'C18_acyclic_no_cycle', 'C18_builders_agree', 'C18_refuted_tuple_key']
+THEOREMS = ['C18_machine_refines', 'C18_terminates', 'C18_acyclic_partial', 'C18_acyclic_model_partial',
+            'C18_acyclic_outside_findings', 'C18_domain_boundary', 'C18_domain_contains', 'C18_shared_partial',
+            'C18_cyclic_partial', 'C18_model_holds_acyclic_partial', 'C18_model_holds_cyclic_partial',
+            'C18_acyclic_no_cycle', 'C18_builders_agree', 'C18_entry_points', 'C18_entry_points_model',
+            'C18_unfold_depth_complete', 'C18_same_value_refl', 'C18_obj_cycle_example', 'C18_fset_key_example',
+            'C18_refuted_tuple_key', 'C18_refuted_container_keys']
 MODEL_TARGETS = ['theories/BuilderModel.vo']
 PROOF_TARGETS = ['props/PropC18.vo']
 HEADER = ('From Coq Require Import String List Bool ZArith.\nRequire Import GT.PyBase GT.BuilderSpec.\n'
@@ -1045,7 +1049,8 @@ def check(tier, seed):
             '(same child twice in one list, a container under several parents, diamonds); (c) self-loops through a list, a dict value '
             'or an attribute at depth 0..4; (d) mutual cycles of length 2-3 through lists, dict values, attributes and tuples, also with '
             'sharing; (e) instances of plain classes P, Q and of a dataclass DC, nested and shared; (f) ~5%: tuples/frozensets/instances '
-            'as dictionary keys or set elements; (g) ~5%: bytes. Each graph under the 3 key strategies x (check_for_cycles, '
+            'as dictionary keys or set elements; (g) ~5%: bytes; corpus: rings of instances with scalar attributes only (seed C18-a), '
+            'frozenset keys inside the proved domain (first key / unsorted strategy / nested / shared). Each graph under the 3 key strategies x (check_for_cycles, '
             'ignore_cycles) in {TF,TT,FF,FT} (cyclic graphs: TF,TT only), on json.build_tree (acyclic: always; cyclic: ~10%), '
             'BasicBuilder().build_tree and pydiff.build_tree, each under a 10 s wall-clock guard; the graph given to Coq is re-derived '
             'from the real objects; corpus cases first; distinct by (observed graph, strategy, flags)')
